@@ -396,7 +396,10 @@ def render_fragment(R, m, atoms, descriptors, style=None, slash=None, annot=None
                 pool = [x for x in (list(range(0, 10)) * 3 + list(range(10, 100))) if x not in used.values()]
                 num = R.choice(pool)
                 used[cid] = num
-                rd.append(bond_sym(a, b) + _ring_token(num))
+                bs_ = bond_sym(a, b)
+                if bs_ in ('/', '\\'):
+                    info['slash_on_ring_bond'] = True    # direction of a mark on a ring bond: not modelled
+                rd.append(bs_ + _ring_token(num))
             else:
                 num = used.pop(cid)
                 rd.append(_ring_token(num))
